@@ -204,8 +204,10 @@ where
     // Channel to collect results from all attempts
     let (tx, mut rx) = mpsc::channel::<(usize, Result<S::Response, S::Error>)>(max_attempts);
 
-    // Spawn primary request
-    let mut service_clone = service.clone();
+    // The instance handed in was driven to readiness by poll_ready: the primary uses it.
+    // Hedges run on clones, which must observe readiness themselves before being called.
+    let hedge_service = service.clone();
+    let mut service_clone = service;
     let req_clone = req.clone();
     let tx_clone = tx.clone();
     tokio::spawn(async move {
@@ -296,11 +298,14 @@ where
                                 timestamp: Instant::now(),
                             });
 
-                            let mut svc = service.clone();
+                            let mut svc = hedge_service.clone();
                             let r = req.clone();
                             let tx_c = tx.clone();
                             tokio::spawn(async move {
-                                let result = svc.call(r).await;
+                                let result = match futures::future::poll_fn(|cx| svc.poll_ready(cx)).await {
+                                    Ok(()) => svc.call(r).await,
+                                    Err(e) => Err(e),
+                                };
                                 let _ = tx_c.send((attempt_num, result)).await;
                             });
 
@@ -362,11 +367,14 @@ where
                         timestamp: Instant::now(),
                     });
 
-                    let mut svc = service.clone();
+                    let mut svc = hedge_service.clone();
                     let r = req.clone();
                     let tx_c = tx.clone();
                     tokio::spawn(async move {
-                        let result = svc.call(r).await;
+                        let result = match futures::future::poll_fn(|cx| svc.poll_ready(cx)).await {
+                            Ok(()) => svc.call(r).await,
+                            Err(e) => Err(e),
+                        };
                         let _ = tx_c.send((i, result)).await;
                     });
                 }
